@@ -201,10 +201,15 @@ func runProperty(prop, tier, repo string, cs *Contracts, timeout int, verbose bo
 			}
 			done[k] = true
 			ct := cs.Funcs[k]
+			isInit := false
 			if ct == nil {
-				continue
+				if f0 := p.funcs[k]; f0 != nil && f0.Synthetic == "package initializer" {
+					isInit = true
+				} else {
+					continue
+				}
 			}
-			if ct.Trusted {
+			if !isInit && ct.Trusted {
 				r.trusted[k] = ct.TrustedWhy
 				continue
 			}
@@ -259,6 +264,14 @@ func runProperty(prop, tier, repo string, cs *Contracts, timeout int, verbose bo
 			for _, c := range res.Called {
 				if !done[c] {
 					work = append(work, c)
+				}
+			}
+			if fn.Pkg != nil && fn.Synthetic == "" {
+				for _, gi := range cs.GlobalInvs {
+					ik := gi.Pkg + ".init"
+					if !done[ik] {
+						work = append(work, ik)
+					}
 				}
 			}
 		}
